@@ -828,7 +828,7 @@ def main(ctx):
     base, cmds = build_corpus(ctx)
     options = parse_options()
     pins = sorted(os.listdir(PINDIR)) if os.path.isdir(PINDIR) else []
-    n = int(os.environ.get("VERIF_C22_N") or ctx.pick(3000, 30000))
+    n = int(os.environ.get("VERIF_C22_N") or ctx.pick(3000, 10000))
     jobs = [("p", p) for p in pins] + [("c", i) for i in range(n)]
     if ctx.replay is not None:
         c = str(ctx.replay.get("case"))
